@@ -362,3 +362,82 @@ func VerifBitmap() {
 		vReach("writer")
 	}
 }
+
+// VerifBinaryHistory: a bounded history of positional operations (typed reads, Read, ReadAt,
+// absolute Seek) on every backend agrees step by step with a reference over the data.
+func VerifBinaryHistory() {
+	n := vRange("n", 0, vParam("N", 3))
+	data := vBytes("d", n)
+	orig := append([]byte(nil), data...)
+	backend := vRange("backend", 0, vnBackends-1)
+	if backend == 1 {
+		return // the sequential reader backend cannot seek or ReadAt
+	}
+	r := vnBinaryReader(data, backend)
+	pos := 0
+	failed := false
+	for k := 0; k < vParam("K", 3); k++ {
+		switch vRange("op", 0, 3) {
+		case 0: // typed read of 1 or 2 bytes
+			size := vRange("size", 1, 2)
+			var got uint64
+			if size == 1 {
+				got = uint64(r.ReadUint8())
+			} else {
+				got = uint64(r.ReadUint16())
+			}
+			if pos+size <= n {
+				vAssert(got == vnRefUint(orig[pos:pos+size], false), "history-typed-read")
+				pos += size
+				if !failed {
+					vAssert(r.Err() == nil, "history-err-early")
+				}
+			} else {
+				vAssert(got == 0, "history-short-read-nonzero")
+				failed = true
+				vAssert(r.Err() == io.EOF, "history-err-missing")
+				pos = int(r.Pos())
+				vAssert(pos <= n, "history-pos-past-end")
+			}
+		case 1: // ReadAt
+			m := vRange("m", 0, n+1)
+			off := vRange("off", 0, n)
+			buf := make([]byte, m)
+			c, err := r.ReadAt(buf, int64(off))
+			want := m
+			if n-off < want {
+				want = n - off
+			}
+			vAssert(c == want, "history-readat-count")
+			vAssert(string(buf[:c]) == string(orig[off:off+c]), "history-readat-data")
+			if c < m {
+				vAssert(err != nil, "history-readat-short-without-error")
+			} else if m > 0 {
+				vAssert(err == nil || err == io.EOF, "history-readat-error")
+			}
+			vAssert(r.Pos() == int64(pos), "history-readat-moved-pos")
+		case 2: // absolute Seek inside [0, n]
+			t := vRange("target", 0, n)
+			got, err := r.Seek(int64(t), 0)
+			vAssert(err == nil && got == int64(t) && r.Pos() == int64(t), "history-seek")
+			pos = t
+		case 3: // Read
+			m := vRange("m", 1, n+1)
+			buf := make([]byte, m)
+			c, err := r.Read(buf)
+			want := m
+			if n-pos < want {
+				want = n - pos
+			}
+			vAssert(c == want, "history-read-count")
+			vAssert(string(buf[:c]) == string(orig[pos:pos+c]), "history-read-data")
+			if c == 0 {
+				vAssert(err != nil, "history-read-zero-without-error")
+			}
+			pos += c
+			vAssert(r.Pos() == int64(pos), "history-read-pos")
+		}
+		vAssert(r.Len() == int64(n)-r.Pos(), "history-len")
+	}
+	vReach("history")
+}
